@@ -191,6 +191,81 @@ theorem cmpStr_le_trans : ∀ a b c : Str, cmpStr b a ≠ .lt → cmpStr c b ≠
             simp only [e1, e2, if_false]
             exact cmpStr_le_trans as bs cs h1 h2
 
+/-! ## the repaired comparator is antisymmetric -/
+
+theorem cmpInt_swap (a b : Int) : cmpInt a b = (cmpInt b a).swap := by
+  unfold cmpInt
+  by_cases h1 : a < b
+  · have : ¬ b < a := by omega
+    simp [h1, this, Ordering.swap]
+  · by_cases h2 : b < a
+    · simp [h1, h2, Ordering.swap]
+    · simp [h1, h2, Ordering.swap]
+
+theorem cmpNat_swap (a b : Nat) : cmpNat a b = (cmpNat b a).swap := by
+  unfold cmpNat
+  by_cases h1 : a < b
+  · have : ¬ b < a := by omega
+    simp [h1, this, Ordering.swap]
+  · by_cases h2 : b < a
+    · simp [h1, h2, Ordering.swap]
+    · simp [h1, h2, Ordering.swap]
+
+theorem cmpBool_swap (a b : Bool) : cmpBool a b = (cmpBool b a).swap := by
+  cases a <;> cases b <;> rfl
+
+theorem cmpStr_swap : ∀ a b : Str, cmpStr a b = (cmpStr b a).swap
+  | [], [] => rfl
+  | [], _ :: _ => rfl
+  | _ :: _, [] => rfl
+  | a :: as, b :: bs => by
+    simp only [cmpStr]
+    by_cases h1 : a.toNat < b.toNat
+    · have : ¬ b.toNat < a.toNat := by omega
+      simp [h1, this, Ordering.swap]
+    · by_cases h2 : b.toNat < a.toNat
+      · simp [h1, h2, Ordering.swap]
+      · simp only [h1, h2, if_false]
+        exact cmpStr_swap as bs
+
+mutual
+theorem cmpJsonT_swap : ∀ a b : J, cmpJsonT a b = (cmpJsonT b a).swap
+  | .null, b => by cases b <;> simp [cmpJsonT, rank, cmpNat, Ordering.swap]
+  | .bool x, b => by cases b <;> simp [cmpJsonT, rank, cmpNat, Ordering.swap]; exact cmpBool_swap _ _
+  | .num x, b => by cases b <;> simp [cmpJsonT, rank, cmpNat, Ordering.swap]; exact cmpInt_swap _ _
+  | .str x, b => by cases b <;> simp [cmpJsonT, rank, cmpNat, Ordering.swap]; exact cmpStr_swap _ _
+  | .arr xs, b => by cases b <;> simp [cmpJsonT, rank, cmpNat, Ordering.swap]; exact cmpArrT_swap xs _
+  | .obj ks vs, b => by cases b <;> simp [cmpJsonT, rank, cmpNat, Ordering.swap]; exact cmpObjT_swap ks vs _ _
+theorem cmpArrT_swap : ∀ xs ys : List J, cmpArrT xs ys = (cmpArrT ys xs).swap
+  | [], [] => by simp [cmpArrT, Ordering.swap]
+  | [], _ :: _ => by simp [cmpArrT, Ordering.swap]
+  | _ :: _, [] => by simp [cmpArrT, Ordering.swap]
+  | x :: xs, y :: ys => by
+    simp only [cmpArrT]
+    rw [cmpJsonT_swap x y]
+    cases cmpJsonT y x <;> simp [Ordering.swap, cmpArrT_swap xs ys]
+theorem cmpObjT_swap : ∀ (ks : List Str) (vs : List J) (ks' : List Str) (vs' : List J),
+    cmpObjT ks vs ks' vs' = (cmpObjT ks' vs' ks vs).swap
+  | k :: ks, v :: vs, k' :: ks', v' :: vs' => by
+    simp only [cmpObjT]
+    rw [cmpStr_swap k k', cmpJsonT_swap v v']
+    cases cmpStr k' k <;> simp [Ordering.swap]
+    cases cmpJsonT v' v <;> simp [Ordering.swap, cmpObjT_swap ks vs ks' vs']
+  | [], _, [], _ => by simp [cmpObjT, Ordering.swap]
+  | [], _, _ :: _, _ => by simp [cmpObjT, Ordering.swap]
+  | _ :: _, vs, [], _ => by cases vs <;> simp [cmpObjT, Ordering.swap]
+  | _ :: _, [], _ :: _, vs' => by cases vs' <;> simp [cmpObjT, Ordering.swap]
+  | _ :: _, _ :: _, _ :: _, [] => by simp [cmpObjT, Ordering.swap]
+end
+theorem cmpKeysT_swap : ∀ (ks : List Str) (a b : J), cmpKeysT ks a b = (cmpKeysT ks b a).swap
+  | [], _, _ => rfl
+  | k :: ks, a, b => by
+    simp only [cmpKeysT]
+    cases pointer a k <;> cases pointer b k <;> simp only [Ordering.swap]
+    rename_i l r
+    rw [cmpJsonT_swap l r]
+    cases cmpJsonT r l <;> simp [Ordering.swap, cmpKeysT_swap ks a b]
+
 /-! ## the pipeline -/
 
 theorem reprocess_repaired (up : Upstream) (d : Nat) (v : VVariant) (h : v.reprocess = true) :
